@@ -19,6 +19,11 @@ ObjOk(e, want, got) ==
      THEN /\ got.data.k = "bg" /\ got.data.collision = e.collisionkinds[want.data[3] + 1]
           /\ got.data.flags = <<want.data[7], want.data[8], want.data[9]>>
           /\ got.data.w = <<want.data[1], want.data[2], want.data[4], want.data[5], want.data[6], want.data[10]>>
+     ELSE IF want.type = TypeShared
+     THEN /\ got.data.k = "shared" /\ got.data.door = e.doorstates[want.data[2]] /\ got.data.rotation = e.rotationstates[want.data[5]]
+          /\ got.data.flags = <<want.data[6], want.data[7], want.data[8], want.data[11]>>
+          /\ got.data.transform = e.playstates[want.data[12] + 1] /\ got.data.colour = e.playstates[want.data[13] + 1]
+          /\ got.data.w = <<want.data[1], want.data[3], want.data[4], want.data[9], want.data[10]>>
      ELSE IF want.type = TypePop
      THEN got.data.k = "pop" /\ got.data.kind = e.popkinds[want.data[1]] /\ got.data.w = <<want.data[4]>> /\ got.data.index = want.data[5]
      ELSE IF want.type = TypeEnv
